@@ -47,12 +47,13 @@ _any_bytes = st.binary(max_size=8).map(lambda b: b.hex())
 _edge = st.one_of(st.just(""), _marker_bytes, _any_bytes)
 
 
-def data_desc(lengths, max_uniform=4096, big=65535, big_weight=1):
+def data_desc(lengths, max_uniform=4096, big=65535, big_weight=1, min_len=0):
+    lengths = [n for n in lengths if n >= min_len]
     length = st.one_of(
         st.sampled_from(lengths),
         st.sampled_from(lengths),
-        st.integers(0, max_uniform),
-        st.integers(0, max_uniform),
+        st.integers(min_len, max_uniform),
+        st.integers(min_len, max_uniform),
         *([st.integers(max_uniform, big)] * big_weight))
     return st.fixed_dictionaries(dict(
         n=length, k=st.integers(0, 2 ** 32 - 1), mode=st.sampled_from([0, 0, 1, 1, 2, 3]),
@@ -68,10 +69,10 @@ word = st.one_of(st.sampled_from([0, 1, 0xFF, 0x100, 0x0E00, 0x7FFF, 0x8000, 0xF
                  st.integers(0, 0xFFFF))
 
 
-def cas_file(lengths=CAS_LENGTHS, big_weight=1):
+def cas_file(lengths=CAS_LENGTHS, big_weight=1, min_len=0):
     return st.fixed_dictionaries(dict(
         name=cas_name, ftype=st.sampled_from([0, 1, 2, 2, 3]), dtype=st.sampled_from([0x00, 0xFF]),
-        load=word, exec=word, data=data_desc(lengths, big_weight=big_weight)))
+        load=word, exec=word, data=data_desc(lengths, big_weight=big_weight, min_len=min_len)))
 
 
 def to_coco(desc, data=None):
